@@ -126,7 +126,7 @@ func c16Parsley(data []byte, mk func() parsley.Parser) (out string) {
 	}
 	// the value of a document does not depend on where it sits: the same bytes loaded as a later file of a
 	// set that already holds another document, with the reader created before the file is registered
-	f2 := text.NewFile("doc.json", data)
+	f2 := loadFile("doc.json", data, 1+len(data)%2*2) // read from disk; every second one placed elsewhere first
 	r2 := text.NewReader(f2)
 	fs2 := parsley.NewFileSet(text.NewFile("other.json", []byte(`{"a": [1, 2.5, "x"]}`)))
 	fs2.AddFile(f2)
